@@ -20,7 +20,13 @@ using namespace cola;
 extern "C" void harness(void) {
     vpsc::Rectangles rs; double W[NR], H[NR];
     for (int i = 0; i < NR; i++) {
+#ifdef SYMONLY
+        // only rectangle SYMONLY has a symbolic position; the others sit at fixed overlapping places
+        double x = 3 * i, y = 2 * i;
+        if (i == SYMONLY) { x = verif_coord(0, PB); y = verif_coord(0, PB); }
+#else
         double x = verif_coord(0, PB), y = verif_coord(0, PB);
+#endif
         W[i] = 10 + 4 * i; H[i] = 6 + 2 * i;
         rs.push_back(new vpsc::Rectangle(x - W[i] / 2, x + W[i] / 2, y - H[i] / 2, y + H[i] / 2));
     }
